@@ -1,0 +1,379 @@
+//! Verification facade (cargo feature "verif", off by default).
+//!
+//! Lets an external harness script command execution, observe progress,
+//! inject faults into `.n2_db` writes, and look at loaded state.  None of this
+//! is part of n2's behaviour: with the feature off nothing here is compiled.
+
+use crate::densemap::Index;
+use crate::graph::{Build, BuildId, Graph};
+use crate::process::Termination;
+use crate::task::TaskResult;
+use crate::work::{BuildState, StateCounts};
+use std::cell::RefCell;
+
+/// What the harness gets to see of one build step.
+#[derive(Clone, Debug, Default)]
+pub struct StepInfo {
+    pub id: usize,
+    pub location: String,
+    pub outs: Vec<String>,
+    pub explicit_outs: usize,
+    pub ins: Vec<String>,
+    pub explicit_ins: usize,
+    pub implicit_ins: usize,
+    pub order_only_ins: usize,
+    pub discovered: Vec<String>,
+    pub cmdline: Option<String>,
+    pub desc: Option<String>,
+    pub depfile: Option<String>,
+    pub rspfile: Option<(String, String)>,
+    pub pool: Option<String>,
+    pub showincludes: bool,
+    pub hide_success: bool,
+    pub hide_progress: bool,
+}
+
+#[derive(Clone, Copy, Debug, PartialEq)]
+pub enum Outcome {
+    Success,
+    Failure,
+    Interrupted,
+}
+
+pub struct Finish {
+    pub id: usize,
+    pub outcome: Outcome,
+    pub output: Vec<u8>,
+    pub last_lines: Vec<Vec<u8>>,
+    pub discovered: Option<Vec<String>>,
+}
+
+/// Scripted command execution.
+pub trait Exec {
+    fn start(&mut self, step: &StepInfo);
+    /// Called when n2 blocks waiting for a completion; `running` is n2's own count.
+    fn finish(&mut self, running: usize) -> Finish;
+}
+
+/// Observer of everything n2 reports about the build.
+pub trait Observer {
+    fn update(&mut self, _counts: [usize; 6]) {}
+    fn task_started(&mut self, _id: usize) {}
+    fn task_output(&mut self, _id: usize, _line: &[u8]) {}
+    fn task_finished(&mut self, _id: usize, _outcome: Outcome, _output: &[u8]) {}
+    fn log(&mut self, _msg: &str) {}
+    /// A manifest (and its log) was loaded; `steps` is indexed by step id.
+    fn loaded(&mut self, _steps: &[StepInfo]) {}
+    /// The manifest-regeneration phase is over, targets are resolved next.
+    fn phase2(&mut self) {}
+    /// A build record is appended to the log.
+    fn db_write(&mut self, _outs: &[String], _deps: &[String], _hash: u64) {}
+    /// A build record was read from the log; `step` is the step it was applied to.
+    fn db_read(&mut self, _step: Option<usize>, _outs: &[String], _deps: &[String], _hash: u64) {}
+}
+
+type FaultFn = Box<dyn FnMut(&[u8]) -> Option<usize>>;
+
+thread_local! {
+    static EXEC: RefCell<Option<Box<dyn Exec>>> = RefCell::new(None);
+    static TIDS: RefCell<Vec<(usize, usize)>> = RefCell::new(Vec::new());
+    static STEPS: RefCell<Vec<StepInfo>> = RefCell::new(Vec::new());
+    static OBSERVER: RefCell<Option<Box<dyn Observer>>> = RefCell::new(None);
+    static ARGS: RefCell<Option<Vec<String>>> = RefCell::new(None);
+    static DBFAULT: RefCell<Option<FaultFn>> = RefCell::new(None);
+    static SCAN_BUDGET: RefCell<Option<u64>> = RefCell::new(None);
+}
+
+/// Payload of the unwind that models sudden death of the n2 process.
+pub struct Death;
+
+pub fn die() -> ! {
+    std::panic::panic_any(Death)
+}
+
+pub fn set_exec(e: Option<Box<dyn Exec>>) -> Option<Box<dyn Exec>> {
+    EXEC.with(|c| std::mem::replace(&mut *c.borrow_mut(), e))
+}
+pub fn set_observer(p: Option<Box<dyn Observer>>) -> Option<Box<dyn Observer>> {
+    OBSERVER.with(|c| std::mem::replace(&mut *c.borrow_mut(), p))
+}
+pub fn set_db_fault(f: Option<FaultFn>) {
+    DBFAULT.with(|c| *c.borrow_mut() = f);
+}
+/// Limit the number of characters scanners may read from now on; None = unlimited.
+pub fn set_scan_budget(n: Option<u64>) {
+    SCAN_BUDGET.with(|c| *c.borrow_mut() = n);
+}
+
+fn with_obs(f: impl FnOnce(&mut dyn Observer)) {
+    OBSERVER.with(|c| {
+        if let Ok(mut c) = c.try_borrow_mut() {
+            if let Some(p) = c.as_mut() {
+                f(p.as_mut())
+            }
+        }
+    })
+}
+
+pub(crate) fn scan_tick() {
+    SCAN_BUDGET.with(|c| {
+        if let Some(n) = c.borrow_mut().as_mut() {
+            if *n == 0 {
+                panic!("verif: scan budget exceeded");
+            }
+            *n -= 1;
+        }
+    })
+}
+
+pub(crate) fn exec_active() -> bool {
+    EXEC.with(|c| c.borrow().is_some())
+}
+
+pub(crate) fn exec_start(id: BuildId, _build: &Build, tid: usize) {
+    TIDS.with(|t| t.borrow_mut().push((id.index(), tid)));
+    let info = STEPS.with(|s| s.borrow().get(id.index()).cloned().unwrap_or_default());
+    EXEC.with(|c| c.borrow_mut().as_mut().unwrap().start(&info));
+}
+
+pub(crate) fn exec_finish(running: usize) -> Option<(BuildId, usize, Vec<Vec<u8>>, TaskResult)> {
+    if !exec_active() {
+        return None;
+    }
+    let f = EXEC.with(|c| c.borrow_mut().as_mut().unwrap().finish(running));
+    let tid = TIDS.with(|t| {
+        let mut t = t.borrow_mut();
+        let pos = t
+            .iter()
+            .position(|&(id, _)| id == f.id)
+            .expect("verif: finish of a step that is not running");
+        t.remove(pos).1
+    });
+    let termination = match f.outcome {
+        Outcome::Success => Termination::Success,
+        Outcome::Failure => Termination::Failure,
+        Outcome::Interrupted => Termination::Interrupted,
+    };
+    Some((
+        BuildId::from(f.id),
+        tid,
+        f.last_lines,
+        TaskResult {
+            termination,
+            output: f.output,
+            discovered_deps: f.discovered,
+        },
+    ))
+}
+
+pub(crate) fn args_override() -> Option<Vec<String>> {
+    ARGS.with(|c| c.borrow().clone())
+}
+
+pub(crate) fn db_fault(buf: &[u8]) -> Option<usize> {
+    DBFAULT.with(|c| match c.borrow_mut().as_mut() {
+        Some(f) => f(buf),
+        None => None,
+    })
+}
+
+fn names(graph: &Graph, ids: &[crate::graph::FileId]) -> Vec<String> {
+    ids.iter().map(|&f| graph.file(f).name.clone()).collect()
+}
+
+fn step_info(graph: &Graph, i: usize) -> StepInfo {
+    let b = &graph.builds[BuildId::from(i)];
+    StepInfo {
+        id: i,
+        location: b.location.to_string(),
+        outs: names(graph, &b.outs.ids),
+        explicit_outs: b.outs.explicit,
+        ins: names(graph, &b.ins.ids),
+        explicit_ins: b.ins.explicit,
+        implicit_ins: b.ins.implicit,
+        order_only_ins: b.ins.order_only,
+        discovered: names(graph, b.discovered_ins()),
+        cmdline: b.cmdline.clone(),
+        desc: b.desc.clone(),
+        depfile: b.depfile.clone(),
+        rspfile: b
+            .rspfile
+            .as_ref()
+            .map(|r| (r.path.to_string_lossy().into_owned(), r.content.clone())),
+        pool: b.pool.clone(),
+        showincludes: b.parse_showincludes,
+        hide_success: b.hide_success,
+        hide_progress: b.hide_progress,
+    }
+}
+
+fn all_steps(graph: &Graph) -> Vec<StepInfo> {
+    (0..graph.builds.next_id().index())
+        .map(|i| step_info(graph, i))
+        .collect()
+}
+
+pub(crate) fn note_load(graph: &Graph) {
+    let steps = all_steps(graph);
+    with_obs(|p| p.loaded(&steps));
+    STEPS.with(|s| *s.borrow_mut() = steps);
+}
+
+pub(crate) fn note_phase2() {
+    with_obs(|p| p.phase2());
+}
+
+pub(crate) fn note_db_write(graph: &Graph, id: BuildId, hash: u64) {
+    let b = &graph.builds[id];
+    let (outs, deps) = (names(graph, b.outs()), names(graph, b.discovered_ins()));
+    with_obs(|p| p.db_write(&outs, &deps, hash));
+}
+
+pub(crate) fn note_db_read(
+    graph: &Graph,
+    step: Option<BuildId>,
+    outs: &[crate::graph::FileId],
+    deps: &[crate::graph::FileId],
+    hash: u64,
+) {
+    let (outs, deps) = (names(graph, outs), names(graph, deps));
+    with_obs(|p| p.db_read(step.map(|b| b.index()), &outs, &deps, hash));
+}
+
+pub(crate) struct ProgressShim;
+pub(crate) fn progress_override() -> Option<ProgressShim> {
+    if OBSERVER.with(|c| c.borrow().is_some()) {
+        Some(ProgressShim)
+    } else {
+        None
+    }
+}
+fn outcome_of(t: &Termination) -> Outcome {
+    match t {
+        Termination::Success => Outcome::Success,
+        Termination::Failure => Outcome::Failure,
+        Termination::Interrupted => Outcome::Interrupted,
+    }
+}
+impl crate::progress::Progress for ProgressShim {
+    fn update(&self, counts: &StateCounts) {
+        let v = [
+            counts.get(BuildState::Want),
+            counts.get(BuildState::Ready),
+            counts.get(BuildState::Queued),
+            counts.get(BuildState::Running),
+            counts.get(BuildState::Done),
+            counts.get(BuildState::Failed),
+        ];
+        with_obs(|p| p.update(v));
+    }
+    fn task_started(&self, id: BuildId, _build: &Build) {
+        with_obs(|p| p.task_started(id.index()));
+    }
+    fn task_output(&self, id: BuildId, line: Vec<u8>) {
+        with_obs(|p| p.task_output(id.index(), &line));
+    }
+    fn task_finished(&self, id: BuildId, _build: &Build, result: &TaskResult) {
+        with_obs(|p| p.task_finished(id.index(), outcome_of(&result.termination), &result.output));
+    }
+    fn log(&self, msg: &str) {
+        with_obs(|p| p.log(msg));
+    }
+}
+
+/// Run n2 as the command line `n2 <args>` would, in the current directory.
+pub fn run_cli(args: Vec<String>) -> Result<i32, String> {
+    let mut argv = vec!["n2".to_string()];
+    argv.extend(args);
+    ARGS.with(|c| *c.borrow_mut() = Some(argv));
+    TIDS.with(|t| t.borrow_mut().clear());
+    STEPS.with(|s| s.borrow_mut().clear());
+    struct Reset;
+    impl Drop for Reset {
+        fn drop(&mut self) {
+            ARGS.with(|c| *c.borrow_mut() = None);
+        }
+    }
+    let _reset = Reset;
+    crate::run::verif_run_impl().map_err(|e| e.to_string())
+}
+
+/// The graph a manifest loads into, without touching any `.n2_db`.
+#[derive(Clone, Debug, Default)]
+pub struct Dump {
+    pub steps: Vec<StepInfo>,
+    pub defaults: Vec<String>,
+    pub pools: Vec<(String, usize)>,
+    pub builddir: Option<String>,
+}
+
+/// Load `build_filename` (relative to the cwd, includes resolved as n2 does) and dump the graph.
+pub fn load_dump(build_filename: &str) -> Result<Dump, String> {
+    let mut loader = crate::load::Loader::new();
+    let id = loader
+        .graph
+        .files
+        .id_from_canonical(crate::canon::to_owned_canon_path(build_filename));
+    let (path, bytes) = loader.read_file_by_id(id).map_err(|e| e.to_string())?;
+    let mut parser = crate::parse::Parser::new(&bytes);
+    loader
+        .parse_with_parser(&mut parser, path, &[])
+        .map_err(|e| e.to_string())?;
+    let (defaults, pools, builddir) = loader.verif_parts();
+    Ok(Dump {
+        steps: all_steps(&loader.graph),
+        defaults: names(&loader.graph, defaults),
+        pools: pools.iter().cloned().collect(),
+        builddir: builddir.clone(),
+    })
+}
+
+/// Parse depfile content; Ok = (target, prerequisites) in file order, Err = formatted diagnostic.
+pub fn parse_depfile(content: &[u8], name: &str) -> Result<Vec<(String, Vec<String>)>, String> {
+    let mut bytes = content.to_vec();
+    bytes.push(0);
+    let mut scanner = crate::scanner::Scanner::new(&bytes);
+    match crate::depfile::parse(&mut scanner) {
+        Ok(map) => Ok(map
+            .iter()
+            .map(|(k, v)| (k.to_string(), v.iter().map(|s| s.to_string()).collect()))
+            .collect()),
+        Err(err) => Err(scanner.format_parse_error(std::path::Path::new(name), err)),
+    }
+}
+
+/// What a finished command with `depfile = path` reports as discovered dependencies.
+pub fn read_depfile(path: &str) -> Result<Vec<String>, String> {
+    crate::task::verif_read_depfile(std::path::Path::new(path)).map_err(|e| e.to_string())
+}
+
+pub fn extract_showincludes(output: Vec<u8>) -> (Vec<String>, Vec<u8>) {
+    crate::task::verif_extract_showincludes(output)
+}
+
+pub fn task_message(message: &str, seconds: usize, max_cols: usize) -> String {
+    crate::progress_fancy::verif_task_message(message, seconds, max_cols)
+}
+
+pub fn truncate(s: &str, max: usize) -> &str {
+    crate::progress_fancy::verif_truncate(s, max)
+}
+
+/// counts = [want, ready, queued, running, done, failed]
+pub fn progress_bar(counts: [usize; 6], bar_size: usize) -> String {
+    let mut c = StateCounts::default();
+    for (state, n) in [
+        BuildState::Want,
+        BuildState::Ready,
+        BuildState::Queued,
+        BuildState::Running,
+        BuildState::Done,
+        BuildState::Failed,
+    ]
+    .into_iter()
+    .zip(counts)
+    {
+        c.add(state, n as isize);
+    }
+    crate::progress_fancy::verif_progress_bar(&c, bar_size)
+}
